@@ -181,11 +181,17 @@ fn k_metrics_counter_frames() {
 }
 
 
-/// C09: the wake-up amount is max(min_sleep, sleep_factor x survivors)  (thorough tier: two float multiplications compared)
+/// C09: the wake-up amount is max(min_sleep, sleep_factor x survivors), for every power-of-two sleep factor 2^-8 .. 2^8, every survivor count
+/// below 2^52 and every min_sleep below 2^52 (two SYMBOLIC-mantissa float products compared do not finish in CBMC: multiplier equivalence;
+/// with a power of two only the exponent of the factor is symbolic)
 #[kani::proof]
 fn k_debt_wakeup_formula() {
     let m = Metrics::new();
-    let p = any_pacing();
+    let k: i8 = kani::any();
+    kani::assume(-8 <= k && k <= 8);
+    let factor = f64::from_bits(((1023i64 + k as i64) as u64) << 52);
+    let mut p = any_pacing();
+    p.sleep_factor = factor;
     m.set_pacing(p);
     let survivors: usize = kani::any();
     kani::assume(survivors < (1usize << 52) && p.min_sleep < (1usize << 52));
@@ -193,9 +199,10 @@ fn k_debt_wakeup_formula() {
     set_floats(&m, 0.0, 0.0);
     m.finish_cycle(true);
     let (w, _) = get_floats(&m);
-    let by_factor = survivors as f64 * p.sleep_factor;
+    let by_factor = survivors as f64 * factor;
     assert!(w >= by_factor && w >= p.min_sleep as f64 && (w == by_factor || w == p.min_sleep as f64),
             "[metrics] wake-up amount = max(min_sleep, sleep_factor x survivors)");
+    kani::cover!(w == by_factor && by_factor > p.min_sleep as f64);
 }
 
 /// C09 / C10 (bounded stand-in): the credit side of the debt formula pairs each work counter with ITS OWN factor.  Relational float queries over
